@@ -43,7 +43,7 @@ Tag(c, t) == IF c THEN <<>> ELSE <<t>>
 RECURSIVE FlatT(_)
 FlatT(ss) == IF ss = <<>> THEN <<>> ELSE Head(ss) \o FlatT(Tail(ss))
 
-JudgeType(b, x, r) ==
+JudgeType0(b, x, r) ==
   LET T == TypeOf[r.t]
       v == IF IsErr(x) THEN Err ELSE View(T, x)
   IN  Tag(~r.panic, "Inv.Total.panic:" \o r.t) \o
@@ -59,6 +59,28 @@ JudgeType(b, x, r) ==
                reported when the real re-encoding gives no evidence against the property *)
             (IF ~IsErr(x) /\ IsErr(v) /\ r.reok /\ r.reenc = b /\ ~HasRaw(T)
                THEN <<"typed-accepts:" \o r.t>> ELSE <<>>))
+
+(* destination state: the value a decode delivers is a function of the bytes alone, whatever the
+   destination held before (a larger value of the type / defaults: "full"; the same destination used
+   a second time: "twice").  Exceptions this decoder documents and the model states: a field tagged
+   rlp:"-" is not touched (it is not part of the projection); a non-nil pointer destination keeps
+   its pointee object and an array its storage (only their content counts); after an ERROR the
+   destination may hold anything (only accepted inputs are compared). *)
+JudgeDest(b, x, r) ==
+  LET T == TypeOf[r.t]
+      v == IF IsErr(x) THEN Err ELSE View(T, x)
+  IN  FlatT([i \in 1..Len(r.dest) |->
+        LET d == r.dest[i]
+            who == d.n \o ":" \o r.t IN
+        Tag(~d.panic, "Inv.Total.panic:dest-" \o who) \o
+        (IF d.panic \/ r.panic THEN <<>>
+         ELSE Tag(d.ok = r.ok, "Inv.Lossless.dest-accept-" \o who) \o
+              (IF d.ok /\ r.ok /\ ~d.same
+                 THEN (IF IsErr(v) THEN <<"Inv.Lossless.dest-value-" \o who>>
+                       ELSE Tag(NormV(T, d.val) = v, "Inv.Lossless.dest-value-" \o who))
+                 ELSE <<>>))])
+
+JudgeType(b, x, r) == JudgeType0(b, x, r) \o JudgeDest(b, x, r)
 
 JudgeStream(b, w) ==
   LET x == DecItem(b, 1, Len(b))
